@@ -373,7 +373,7 @@ def check(ctx):
     ctx.correspond("arr", cases, agree=agree)
     # the same array programs as text through the unified pipeline model (status + exact display)
     texts = [c[2] for c in cases if isinstance(c[2], str)]
-    pipeline.run(ctx, [t for t in texts[: ctx.n(2500, 25000)] if len(t) < 3000], label="run-c12", min_modelled=0.0)
+    pipeline.run(ctx, [t for t in texts[: ctx.n(2500, 25000)] if len(t) < 3000], label="run-c12", min_modelled=0.0, bodies=True)
 
 
 # ---- refinement lemmas of the unified pipeline model for this property (Props/Pipeline2.lean): the fragment this check's
@@ -385,3 +385,9 @@ GEN = GEN + [g for g in _pl.GEN if g not in GEN]
 # Props/PipelineArr.lean: comprehensions, median, range on every numeric kind, quantity aggregates
 LEAN_MODULES = LEAN_MODULES + [m for m in _pl.LEAN_MODULES3 if m not in LEAN_MODULES]
 THEOREMS = THEOREMS + [t for t in _pl.THEOREMS3.get(ID, []) if t not in THEOREMS]
+
+# ---- the array / range function bodies TRANSLATED from the source (Gen/Bodies.lean) are proved equal to the hand-written model
+# bodies (Props/Bodies.lean); the array programs above also run through the translated bodies (stream runG)
+LEAN_MODULES = LEAN_MODULES + [m for m in _pl.BODIES_MODULES if m not in LEAN_MODULES]
+THEOREMS = THEOREMS + [t for t in _pl.bodies_theorems(("Array", "BODIES_range_", "_varNumber")) if t not in THEOREMS]
+GEN = GEN + [g for g in _pl.BODIES_GEN if g not in GEN]
